@@ -155,7 +155,11 @@ func Fill(v reflect.Value, data any) error {
 		name, _ := m["$union"].(string)
 		var found []reflect.Type
 		for _, t := range unionAlts {
-			if t.Implements(v.Type()) && strings.HasSuffix(norm(t.Name()), norm(name)) {
+			tn := t.Name()
+			if t.Kind() == reflect.Ptr {
+				tn = t.Elem().Name()
+			}
+			if t.Implements(v.Type()) && strings.HasSuffix(norm(tn), norm(name)) {
 				found = append(found, t)
 			}
 		}
